@@ -211,16 +211,16 @@ theorem chainOK_tail {x : CLayer} {S : List CLayer} (h : ChainOK fs d pre (x :: 
 /-- the parents of the file on top of a chain, by the filename rule -/
 theorem fileParents_chain (hd : PlainDir fs d) (x : CLayer) (S : List CLayer)
     (hpl : ∀ n ∈ cnames pre (x :: S), PlainName n) (hok : ChainOK fs d pre (x :: S)) :
-    fileParents fs (clPath d pre (x :: S)) x.docs =
+    fileParents fs ⟨[], cwd⟩ (clPath d pre (x :: S)) x.docs =
       if cnames pre S = [] then .ok []
       else
-        match fs.findFile d (layerName (cnames pre S)) with
+        match fs.findRooted [] d (layerName (cnames pre S)) with
         | some f => .ok [f]
         | none => .error .missingFile := by
   have hne : cnames pre (x :: S) ≠ [] := by rw [cnames_cons]; simp
   have hl : 0 < (layerName (cnames pre (x :: S))).length :=
     layer_length_pos _ hne (fun n hn => (hpl n hn).1)
-  rw [clPath, fileParents_layer hd hl hok.1 hok.2.1]
+  rw [clPath, fileParents_layer ⟨[], cwd⟩ hd hl hok.1 hok.2.1]
   unfold layerName
   rw [splitOn_layer _ hne (fun n hn => (hpl n hn).2), cnames_cons, List.dropLast_concat]
   by_cases h : cnames pre S = []
@@ -278,11 +278,11 @@ theorem plain_tail {x : CLayer} {S : List CLayer} (hpl : ∀ n ∈ cnames pre (x
 
 theorem fileParents_chain_cons (hd : PlainDir fs d) (x y : CLayer) (S : List CLayer)
     (hpl : ∀ n ∈ cnames pre (x :: y :: S), PlainName n) (hok : ChainOK fs d pre (x :: y :: S)) :
-    fileParents fs (clPath d pre (x :: y :: S)) x.docs = .ok [clPath d pre (y :: S)] := by
+    fileParents fs ⟨[], cwd⟩ (clPath d pre (x :: y :: S)) x.docs = .ok [clPath d pre (y :: S)] := by
   have hne : cnames pre (y :: S) ≠ [] := by rw [cnames_cons]; simp
   have hl : 0 < (layerName (cnames pre (y :: S))).length :=
     layer_length_pos _ hne (fun n hn => (plain_tail hpl n hn).1)
-  rw [fileParents_chain hd x (y :: S) hpl hok, if_neg hne, findFile_layerFile hd hl hok.2.2.1]
+  rw [fileParents_chain hd x (y :: S) hpl hok, if_neg hne, findRooted_layerFile hd hl hok.2.2.1]
   rfl
 
 /-- **chains of any depth load base first** (with enough fuel) -/
@@ -298,7 +298,7 @@ theorem lfp_chain_ok (hd : PlainDir fs d) : ∀ (S : List CLayer) (x : CLayer) (
   | nil =>
     intro x fuel c ids chain hpl hok hch
     have hc := not_contains_clPath (d := d) x [] chain hpl hok.1.ext (by simpa using hch)
-    have hp : fileParents fs (clPath d [] [x]) x.docs = .ok [] := by
+    have hp : fileParents fs ⟨[], cwd⟩ (clPath d [] [x]) x.docs = .ok [] := by
       rw [fileParents_chain hd x [] hpl hok, cnames_nil]; rfl
     rw [lfp_leaf hc (loadFile_chain hd x [] hpl hok _) hp, mineOf_plain _ _ _ _ _ hok.2.1,
       chainFiles_cons]
@@ -307,7 +307,7 @@ theorem lfp_chain_ok (hd : PlainDir fs d) : ∀ (S : List CLayer) (x : CLayer) (
     intro x fuel c ids chain hpl hok hch
     have hc := not_contains_clPath (d := d) x (y :: S) chain hpl hok.1.ext (by simpa using hch)
     have hne : cnames [] (y :: S) ≠ [] := by rw [cnames_cons]; simp
-    have hp := fileParents_chain_cons (pre := []) hd x y S hpl hok
+    have hp := fileParents_chain_cons (cwd := cwd) (pre := []) hd x y S hpl hok
     have hq := ih y fuel (some (fileIdOf c (clPath d [] (x :: y :: S))))
       (docIdsOf (fileIdOf c (clPath d [] (x :: y :: S))) x.docs.length)
       (clPath d [] (x :: y :: S) :: chain) (plain_tail hpl) hok.2.2
@@ -320,7 +320,7 @@ theorem lfp_chain_ok (hd : PlainDir fs d) : ∀ (S : List CLayer) (x : CLayer) (
 
 /-- a layer below the chain that no file provides: `missingFile` (with enough fuel) -/
 theorem lfp_chain_missing (hd : PlainDir fs d) (hpre : pre ≠ [])
-    (hmiss : fs.findFile d (layerName pre) = none) : ∀ (S : List CLayer) (x : CLayer) (fuel : Nat)
+    (hmiss : fs.findRooted [] d (layerName pre) = none) : ∀ (S : List CLayer) (x : CLayer) (fuel : Nat)
     (c : Option String) (ids : List String) (chain : List Comps),
     (∀ n ∈ cnames pre (x :: S), PlainName n) → ChainOK fs d pre (x :: S) →
     (∀ q ∈ chain, pre.length + S.length + 2 < partsOf q) →
@@ -331,7 +331,7 @@ theorem lfp_chain_missing (hd : PlainDir fs d) (hpre : pre ≠ [])
   | nil =>
     intro x fuel c ids chain hpl hok hch
     have hc := not_contains_clPath (d := d) x [] chain hpl hok.1.ext hch
-    have hp : fileParents fs (clPath d pre [x]) x.docs = .error .missingFile := by
+    have hp : fileParents fs ⟨[], cwd⟩ (clPath d pre [x]) x.docs = .error .missingFile := by
       rw [fileParents_chain hd x [] hpl hok, cnames_nil, if_neg hpre, hmiss]
     rw [loadFileAndParents_succ, hc, loadFile_chain hd x [] hpl hok _]
     simp only [Bool.false_eq_true, if_false, hp]
@@ -339,7 +339,7 @@ theorem lfp_chain_missing (hd : PlainDir fs d) (hpre : pre ≠ [])
     intro x fuel c ids chain hpl hok hch
     have hc := not_contains_clPath (d := d) x (y :: S) chain hpl hok.1.ext hch
     have hne : cnames pre (y :: S) ≠ [] := by rw [cnames_cons]; simp
-    have hp := fileParents_chain_cons hd x y S hpl hok
+    have hp := fileParents_chain_cons (cwd := cwd) hd x y S hpl hok
     have hq := ih y fuel (some (fileIdOf c (clPath d pre (x :: y :: S))))
       (docIdsOf (fileIdOf c (clPath d pre (x :: y :: S))) x.docs.length)
       (clPath d pre (x :: y :: S) :: chain) (plain_tail hpl) hok.2.2
@@ -366,7 +366,7 @@ theorem lfp_chain_nofuel (hd : PlainDir fs d) : ∀ (fuel : Nat) (S : List CLaye
     | nil => simp at hlen
     | cons y S =>
       have hne : cnames pre (y :: S) ≠ [] := by rw [cnames_cons]; simp
-      have hp := fileParents_chain_cons hd x y S hpl hok
+      have hp := fileParents_chain_cons (cwd := cwd) hd x y S hpl hok
       rw [loadFileAndParents_succ]
       cases hc : chain.contains (clPath d pre (x :: y :: S)) with
       | true => rfl
@@ -594,7 +594,7 @@ theorem load_chain_missing (hd : PlainDir fs d) (P : List CLayer) (x : CLayer)
     (hlen : (P ++ [x]).length ≤ loadFuel) (hne : pre ≠ []) (hpre : ∀ n ∈ pre, PlainName n)
     (hpl : ∀ y ∈ P ++ [x], PlainName y.name)
     (hok : ChainFilesOK fs d pre (P ++ [x]))
-    (hm : fs.findFile d (layerName pre) = none) :
+    (hm : fs.findRooted [] d (layerName pre) = none) :
     loadFileAndParents fs ⟨[], cwd⟩ loadFuel (prefixPath d pre (P ++ [x])) none [] [] =
       .error .missingFile := by
   have hok' := chainOK_reverse hok
@@ -733,10 +733,11 @@ theorem deepLayer_plain : PlainName deepLayer.name := ⟨by decide, by decide⟩
 
 /-! ## a `$parent` list with a dangling entry -/
 
-theorem fileParents_missing_entry (fs : FS) (path : Comps) (docs : List Val) (dirs : List ParentDir)
+theorem fileParents_missing_entry (fs : FS) (cfg : RootCfg) (path : Comps) (docs : List Val)
+    (dirs : List ParentDir)
     (n : String) (hd : docs.mapM parentDirective = .ok dirs) (hnp : hasNoParent dirs = false)
-    (hn : n ∈ parentNames dirs) (hg : globName fs path n = []) :
-    fileParents fs path docs = .error .missingFile := by
+    (hn : n ∈ parentNames dirs) (hg : globName fs cfg path n = []) :
+    fileParents fs cfg path docs = .error .missingFile := by
   rw [fileParents_eq, hd]
   have h1 : (parentNames dirs).isEmpty = false := by
     cases h : parentNames dirs with
@@ -744,7 +745,7 @@ theorem fileParents_missing_entry (fs : FS) (path : Comps) (docs : List Val) (di
     | cons a l => rfl
   simp only [hnp, h1, Bool.false_eq_true, if_false, Bool.not_false, if_true]
   rw [globStep_foldlM]
-  have h2 : (parentNames dirs).any (fun n => (globName fs path n).isEmpty) = true := by
+  have h2 : (parentNames dirs).any (fun n => (globName fs cfg path n).isEmpty) = true := by
     rw [List.any_eq_true]
     exact ⟨n, hn, by rw [hg]; rfl⟩
   rw [h2]; rfl
@@ -759,7 +760,7 @@ theorem lfp_parents_error {fs : FS} {cfg : RootCfg} {fuel : Nat} {path : Comps}
     {childId : Option String} {c : List String} {chain : List Comps} {raw : List Val} {e : Err}
     (hc : chain.contains path = false)
     (hl : loadFile fs cfg path (fileIdOf childId path) = .ok raw)
-    (hp : fileParents fs path raw = .error e) :
+    (hp : fileParents fs cfg path raw = .error e) :
     loadFileAndParents fs cfg (fuel + 1) path childId c chain = .error e := by
   rw [loadFileAndParents_succ, hc, hl]
   simp only [Bool.false_eq_true, if_false, hp]
@@ -771,21 +772,77 @@ theorem qsort_toList_eq_nil {α : Type} (lt : α → α → Bool) (as : Array α
   · intro h x hx; exact h x ((mem_qsort lt as x).2 hx)
   · intro h x hx; exact h x ((mem_qsort lt as x).1 hx)
 
-/-- `globFiles` is empty exactly when the directory does not resolve or none of its entries is
-    selected -/
-theorem globFiles_eq_nil_iff (fs : FS) (dir : Comps) (base : String) :
-    fs.globFiles dir base = [] ↔
-      fs.evalSymlinks dir = none ∨ ∃ rdir, fs.evalSymlinks dir = some rdir ∧ globNames fs rdir base = [] := by
-  rw [globFiles_eq]
-  cases h : fs.evalSymlinks dir with
-  | none => simp
-  | some rdir =>
-    simp only [List.map_eq_nil_iff, qsort_toList_eq_nil]
-    constructor
-    · intro h'; exact Or.inr ⟨rdir, rfl, by simpa using h'⟩
-    · rintro (h' | ⟨r, hr, h'⟩)
-      · cases h'
-      · cases hr; simpa using h'
+/-- `globFiles` (for a target whose directory holds no wildcard) is empty exactly when the
+    directory cannot be opened beneath the root or none of its entries is selected -/
+theorem globFiles_eq_nil_iff (fs : FS) (root d : Comps) (base : String)
+    (hd : ∀ c ∈ d, plainComp c = true) (hm : d.any hasMeta = false) :
+    fs.globFiles root (root ++ d ++ [base]) = [] ↔
+      (∀ real, fs.rootOpenDir root d ≠ .ok real) ∨
+        ∃ real, fs.rootOpenDir root d = .ok real ∧ globNames fs real base = [] := by
+  rw [globFiles_snoc fs root d base hd hm, List.map_eq_nil_iff, rootReadDir_eq, rootOpenDir_eq]
+  cases hw : fs.rootWalk root linkFuel root d with
+  | error e => simp
+  | ok real =>
+    simp only []
+    have hperm := filter_qsort_perm (globSel base) (dirNames fs real)
+    rw [← globNames_eq] at hperm
+    generalize fs.lstat real = nd
+    have hdirCase : List.filter (globSel base) ((dirNames fs real).toArray.qsort (· < ·)).toList = [] ↔
+        (∀ r : Comps, (Except.ok real : R Comps) ≠ .ok r) ∨
+          ∃ r, (Except.ok real : R Comps) = .ok r ∧ globNames fs r base = [] := by
+      constructor
+      · intro h
+        rw [h] at hperm
+        exact Or.inr ⟨real, rfl, hperm.symm.eq_nil⟩
+      · rintro (h | ⟨r, hr, h⟩)
+        · exact absurd rfl (h real)
+        · cases hr
+          rw [h] at hperm
+          exact hperm.eq_nil
+    cases nd with
+    | none => simp
+    | some n =>
+      cases n with
+      | dir => exact hdirCase
+      | file _ => simp
+      | link _ => simp
+
+/-- `globFiles` looks at the target only through its directory and base name -/
+theorem globFiles_congr_target (fs : FS) (root : Comps) {t t' : Comps} (hd : dirOf t = dirOf t')
+    (hb : baseOf t = baseOf t') : fs.globFiles root t = fs.globFiles root t' := by
+  unfold FS.globFiles
+  rw [hd, hb]
+
+/-- a pattern whose directory is not beneath the root matches nothing -/
+theorem globFiles_outside (fs : FS) (root target : Comps) (h : ¬ root <+: dirOf target) :
+    fs.globFiles root target = [] := by
+  unfold FS.globFiles
+  simp only []
+  by_cases hp : root <+: dirOf target ++ [baseOf target ++ ".*"]
+  · rcases List.prefix_concat_iff.1 hp with e | hp'
+    · have : relTo root (dirOf target ++ [baseOf target ++ ".*"]) = [] := by
+        rw [← e]
+        have := relTo_append root []
+        simpa using this
+      rw [this]
+      have hu : ¬ extOf "" ∈ supportedExts := by
+        intro hmem
+        have := List.contains_iff_mem.2 hmem
+        rw [extOf_empty_unsupported] at this
+        cases this
+      simp [FS.globRev, hu]
+    · exact absurd hp' h
+  · have hr : root ≠ [] := by
+      intro e; subst e; exact hp List.nil_prefix
+    have hh := relTo_strip_outside root _ hp hr
+    change (relTo root _).head? = some ".." at hh
+    cases hrel : relTo root (dirOf target ++ [baseOf target ++ ".*"]) with
+    | nil => rw [hrel] at hh; cases hh
+    | cons a rest =>
+      rw [hrel] at hh
+      simp only [List.head?_cons, Option.some.injEq] at hh
+      subst hh
+      simp
 
 /-- no entry of `rdir` is selected by `base.*` -/
 theorem globNames_eq_nil_iff (fs : FS) (rdir : Comps) (base : String) :
@@ -857,20 +914,21 @@ theorem rootOpen_link {fs : FS} {d : Comps} {c t t' : String} {docs : R (List Va
 
 /-- the parents of a symlink (no `$parent` inside) are those of its target's name -/
 theorem fileParents_link {fs : FS} {d : Comps} {c t l e : String} {n : FNode} {docs : List Val}
+    (cfg : RootCfg)
     (hd : PlainDir fs d) (hlen : d.length + 3 ≤ linkFuel) (hc : plainComp c = true)
     (hl : fs.lstat (d ++ [c]) = some (.link t)) (ha : isAbsPath t = false)
     (hs : splitPath t = [l ++ "." ++ e]) (hll : 0 < l.length) (he : e ∈ supportedExts)
     (hl' : fs.lstat (d ++ [l ++ "." ++ e]) = some n) (hn : n.isLink = false)
     (hdocs : ∀ x ∈ docs, parentDirective x = .ok .absent) :
-    fileParents fs (d ++ [c]) docs =
+    fileParents fs cfg (d ++ [c]) docs =
       if (l.splitOn ".").length = 1 then .ok []
       else
-        match fs.findFile d (".".intercalate (l.splitOn ".").dropLast) with
+        match fs.findRooted cfg.root d (".".intercalate (l.splitOn ".").dropLast) with
         | some f => .ok [f]
         | none => .error .missingFile := by
-  rw [fileParents_no_directive fs _ docs hdocs,
+  rw [fileParents_no_directive fs cfg _ docs hdocs,
     evalSymlinks_link hd hlen hc hl ha hs (plainComp_layer _ _ hll (supportedExt_length_pos e he)) hl' hn]
-  exact fromName_snoc fs d l e (supportedExt_noDot e he)
+  exact fromName_snoc fs cfg d l e (supportedExt_noDot e he)
 
 theorem loadFile_link {fs : FS} {d cwd : Comps} {c t l e : String} {docs : R (List Val)}
     (hd : PlainDir fs d) (hlen : d.length + 3 ≤ linkFuel) (hc : plainComp c = true)
@@ -990,7 +1048,7 @@ section gen
 variable {fs : FS} {cfg : RootCfg} {q₁ q₂ q₃ : Comps} {w₁ w₂ w₃ : Val}
 
 theorem lfp_gen1 (hl₁ : ∀ fid, loadFile fs cfg q₁ fid = .ok [w₁])
-    (hp₁ : fileParents fs q₁ [w₁] = .ok [])
+    (hp₁ : fileParents fs cfg q₁ [w₁] = .ok [])
     (fuel : Nat) (c : Option String) (ids : List String) (chain : List Comps)
     (hc₁ : chain.contains q₁ = false) :
     loadFileAndParents fs cfg (fuel + 1) q₁ c ids chain =
@@ -1001,7 +1059,7 @@ theorem lfp_gen1 (hl₁ : ∀ fid, loadFile fs cfg q₁ fid = .ok [w₁])
 
 theorem lfp_gen2 (hl₁ : ∀ fid, loadFile fs cfg q₁ fid = .ok [w₁])
     (hl₂ : ∀ fid, loadFile fs cfg q₂ fid = .ok [w₂])
-    (hp₁ : fileParents fs q₁ [w₁] = .ok []) (hp₂ : fileParents fs q₂ [w₂] = .ok [q₁])
+    (hp₁ : fileParents fs cfg q₁ [w₁] = .ok []) (hp₂ : fileParents fs cfg q₂ [w₂] = .ok [q₁])
     (h₁₂ : q₁ ≠ q₂)
     (fuel : Nat) (c : Option String) (ids : List String) (chain : List Comps)
     (hc₂ : chain.contains q₂ = false) (hc₁ : chain.contains q₁ = false) :
@@ -1020,8 +1078,8 @@ theorem lfp_gen2 (hl₁ : ∀ fid, loadFile fs cfg q₁ fid = .ok [w₁])
 theorem lfp_gen3 (hl₁ : ∀ fid, loadFile fs cfg q₁ fid = .ok [w₁])
     (hl₂ : ∀ fid, loadFile fs cfg q₂ fid = .ok [w₂])
     (hl₃ : ∀ fid, loadFile fs cfg q₃ fid = .ok [w₃])
-    (hp₁ : fileParents fs q₁ [w₁] = .ok []) (hp₂ : fileParents fs q₂ [w₂] = .ok [q₁])
-    (hp₃ : fileParents fs q₃ [w₃] = .ok [q₂])
+    (hp₁ : fileParents fs cfg q₁ [w₁] = .ok []) (hp₂ : fileParents fs cfg q₂ [w₂] = .ok [q₁])
+    (hp₃ : fileParents fs cfg q₃ [w₃] = .ok [q₂])
     (h₁₂ : q₁ ≠ q₂) (h₁₃ : q₁ ≠ q₃) (h₂₃ : q₂ ≠ q₃)
     (fuel : Nat) (c : Option String) (ids : List String) (chain : List Comps)
     (hc₃ : chain.contains q₃ = false) (hc₂ : chain.contains q₂ = false)
@@ -1246,9 +1304,9 @@ theorem stripParent_idem (w : Val) : stripParent (stripParent w) = stripParent w
   stripParent_of_absent _ (parentDirective_stripParent w)
 
 /-- one document whose `$parent` is the name `n`, which stands for exactly the file `q'` -/
-theorem fileParents_str_single (fs : FS) (path q' : Comps) (kvs : Fields) (n : String)
-    (h : fget kvs "$parent" = some (.str n)) (hg : globName fs path n = [q']) :
-    fileParents fs path [.map kvs] = .ok [q'] := by
+theorem fileParents_str_single (fs : FS) (cfg : RootCfg) (path q' : Comps) (kvs : Fields) (n : String)
+    (h : fget kvs "$parent" = some (.str n)) (hg : globName fs cfg path n = [q']) :
+    fileParents fs cfg path [.map kvs] = .ok [q'] := by
   have hd : [Val.map kvs].mapM parentDirective = .ok [.names [n]] := by
     rw [mapM_R_cons, mapM_R_nil, parentDirective_map, h]
   rw [fileParents_eq, hd]
@@ -1326,23 +1384,26 @@ def danglingFS : FS := ⟨[
   (["w", "a.yaml"], .file (.ok [.map [("x", .int 1)]])),
   (["w", "top.yaml"], .file (.ok [.map [("$parent", .list [.str "a", .str "nope", .str "a"]), ("y", .int 2)]]))]⟩
 
-theorem danglingFS_glob_a : globName danglingFS ["w", "top.yaml"] "a" = [["w", "a.yaml"]] := by
+theorem danglingFS_glob_a :
+    globName danglingFS ⟨[], []⟩ ["w", "top.yaml"] "a" = [["w", "a.yaml"]] := by
   unfold globName
   rw [splitPath_lit "a" ["a"] (by decide)]
-  have : cleanComps (dirOf ["w", "top.yaml"] ++ ["a"]) = ["w", "a"] := by decide
+  have : cleanComps (dirOf ["w", "top.yaml"] ++ ["a"]) = ["w"] ++ ["a"] := by decide
   rw [this]
   have h2 : globNames danglingFS ["w"] "a" = ["a.yaml"] := by
     simp only [globNames, extOf_eq]; decide
-  exact globFiles_singleton (rdir := ["w"]) (by decide) h2
+  exact globFiles_singleton_noroot (d := ["w"]) (real := ["w"]) (by decide) (by decide) (by decide)
+    (by decide) h2
 
-theorem danglingFS_glob_nope : globName danglingFS ["w", "top.yaml"] "nope" = [] := by
+theorem danglingFS_glob_nope : globName danglingFS ⟨[], []⟩ ["w", "top.yaml"] "nope" = [] := by
   unfold globName
   rw [splitPath_lit "nope" ["nope"] (by decide)]
-  have : cleanComps (dirOf ["w", "top.yaml"] ++ ["nope"]) = ["w", "nope"] := by decide
+  have : cleanComps (dirOf ["w", "top.yaml"] ++ ["nope"]) = ["w"] ++ ["nope"] := by decide
   rw [this]
   have h2 : globNames danglingFS ["w"] "nope" = [] := by
     simp only [globNames, extOf_eq]; decide
-  exact globFiles_nil (rdir := ["w"]) (by decide) h2
+  exact globFiles_nil_noroot (d := ["w"]) (real := ["w"]) (by decide) (by decide) (by decide)
+    (by decide) h2
 
 
 /-! ## sample: symlinked layers -/
@@ -1446,24 +1507,28 @@ theorem dirFS_top : LayerFile dirFS ["v"] "top" "json"
     (fun _ => by decide) (fun _ => by decide) (fun _ => by decide) (fun _ => by decide)
 
 theorem dirFS_glob_base :
-    globName dirFS (["v"] ++ ["mid" ++ "." ++ "yaml"]) "base" = [["v"] ++ ["base" ++ "." ++ "yaml"]] := by
+    globName dirFS ⟨[], []⟩ (["v"] ++ ["mid" ++ "." ++ "yaml"]) "base" =
+      [["v"] ++ ["base" ++ "." ++ "yaml"]] := by
   unfold globName
   rw [splitPath_lit "base" ["base"] (by decide)]
-  have : cleanComps (dirOf (["v"] ++ ["mid" ++ "." ++ "yaml"]) ++ ["base"]) = ["v", "base"] := by decide
+  have : cleanComps (dirOf (["v"] ++ ["mid" ++ "." ++ "yaml"]) ++ ["base"]) = ["v"] ++ ["base"] := by decide
   rw [this]
   have h2 : globNames dirFS ["v"] "base" = ["base.yaml"] := by
     simp only [globNames, extOf_eq]; decide
-  exact globFiles_singleton (rdir := ["v"]) (by decide) h2
+  exact globFiles_singleton_noroot (d := ["v"]) (real := ["v"]) (by decide) (by decide) (by decide)
+    (by decide) h2
 
 theorem dirFS_glob_mid :
-    globName dirFS (["v"] ++ ["top" ++ "." ++ "json"]) "mid" = [["v"] ++ ["mid" ++ "." ++ "yaml"]] := by
+    globName dirFS ⟨[], []⟩ (["v"] ++ ["top" ++ "." ++ "json"]) "mid" =
+      [["v"] ++ ["mid" ++ "." ++ "yaml"]] := by
   unfold globName
   rw [splitPath_lit "mid" ["mid"] (by decide)]
-  have : cleanComps (dirOf (["v"] ++ ["top" ++ "." ++ "json"]) ++ ["mid"]) = ["v", "mid"] := by decide
+  have : cleanComps (dirOf (["v"] ++ ["top" ++ "." ++ "json"]) ++ ["mid"]) = ["v"] ++ ["mid"] := by decide
   rw [this]
   have h2 : globNames dirFS ["v"] "mid" = ["mid.yaml"] := by
     simp only [globNames, extOf_eq]; decide
-  exact globFiles_singleton (rdir := ["v"]) (by decide) h2
+  exact globFiles_singleton_noroot (d := ["v"]) (real := ["v"]) (by decide) (by decide) (by decide)
+    (by decide) h2
 
 
 /-! ## globbing a plain name -/
@@ -1693,10 +1758,11 @@ theorem plainComp_of_plainName {n : String} (hn : PlainName n) : plainComp n = t
 
 /-- `$parent: n` next to `d/c`, for such a name `n`, stands for exactly the file of layer `n` -/
 theorem globName_plain {fs : FS} {d : Comps} {c n e : String} {content : R (List Val)}
-    (hd : PlainDir fs d) (hn : PlainName n)
+    (cwd : Comps) (hd : PlainDir fs d) (hdir : fs.lstat d = some .dir) (hmeta : d.any hasMeta = false)
+    (hn : PlainName n)
     (hw : ∀ ch ∈ n.toList, ch ≠ '*' ∧ ch ≠ '?' ∧ ch ≠ '/')
     (h : LayerFile fs d n e content) (hnd : (fs.entries.map (·.1)).Nodup) :
-    globName fs (d ++ [c]) n = [d ++ [n ++ "." ++ e]] := by
+    globName fs ⟨[], cwd⟩ (d ++ [c]) n = [d ++ [n ++ "." ++ e]] := by
   unfold globName
   rw [dirOf_snoc, splitPath_plain n hn.1 (fun hm => (hw _ hm).2.2 rfl),
     cleanComps_of_plain (d ++ [n]) (by
@@ -1704,8 +1770,7 @@ theorem globName_plain {fs : FS} {d : Comps} {c n e : String} {content : R (List
       rcases List.mem_append.1 hx with hx | hx
       · exact hd.1.1 x hx
       · have : x = n := by simpa using hx
-        subst this; exact plainComp_of_plainName hn),
-    dirOf_snoc, baseOf_snoc]
-  exact globFiles_singleton (evalSymlinks_dir hd)
+        subst this; exact plainComp_of_plainName hn)]
+  exact globFiles_singleton_noroot hd.1.1 hmeta (rootWalk_plainDir hd) hdir
     (globNames_plain hn (fun ch hc => ⟨(hw ch hc).1, (hw ch hc).2.1⟩) h hnd)
 end Bkl
